@@ -24,9 +24,10 @@ done
 P=./$(cd $D/demo && find . -name '*_test.go' -printf '%h\n' | head -1 | sed 's|^\./||')
 echo "demo package: $P"
 go test -count=1 -timeout 1500s -run "$DEMO" $P > $D/demo_with_change.log 2>&1; rc1=$?
-git stash -q
+# NB: git stash is shared between worktrees of one repository: never use it here
+git apply -R $D/patch.diff || { echo "cannot revert patch"; exit 2; }
 go test -count=1 -timeout 1500s -run "$DEMO" $P > $D/demo_without_change.log 2>&1; rc2=$?
-git stash pop -q
+git apply $D/patch.diff || { echo "cannot re-apply patch"; exit 2; }
 echo "demo with change: rc=$rc1 (want != 0); without change: rc=$rc2 (want 0)"
 PKGS=$(git diff --name-only | grep '\.go$' | xargs -n1 dirname | sort -u | sed 's|^|./|')
 echo "touched packages: $PKGS $*"
